@@ -21,6 +21,7 @@ import (
 	"path/filepath"
 	"runtime"
 	"sort"
+	"strconv"
 	"strings"
 	"sync"
 	"time"
@@ -152,21 +153,85 @@ func safeExec(e Engine, plan any, c *Ctx) (v *Violation) {
 	return e.Exec(plan, c)
 }
 
-// ---------------------------------------------------------------- minimisation
+// ---------------------------------------------------------------- fresh-process execution
+//
+// The library under test may (after a change) hold process-global state; a
+// plan is only guaranteed to be a pure function of (plan, code) when it
+// starts from a fresh process. Confirmation and minimisation of violations
+// therefore execute every candidate plan in a fresh process of this binary.
 
-func minimise(e Engine, plan any, v *Violation, maxExecs int) (any, *Violation, int) {
+type execResult struct {
+	V       *Violation `json:"violation"`
+	LogHash string     `json:"log_hash"`
+}
+
+func execFresh(e Engine, plan any) execResult {
+	tmp, err := os.CreateTemp(scratchBase(), "simcheck-plan-*.json")
+	if err != nil {
+		fatal2("%v", err)
+	}
+	defer os.Remove(tmp.Name())
+	tmp.Write(planJSON(plan))
+	tmp.Close()
+	self, _ := os.Executable()
+	out, err := exec.Command(self, "exec", e.ID(), tmp.Name()).Output()
+	if err != nil {
+		fatal2("exec of plan in a fresh process failed: %v\n%s", err, out)
+	}
+	var r execResult
+	if err := json.Unmarshal(out, &r); err != nil {
+		fatal2("exec output: %v: %s", err, out)
+	}
+	return r
+}
+
+// execCmd implements "simcheck exec <id> <planfile>".
+func execCmd(id, planfile string) {
+	e, ok := engines[id]
+	if !ok {
+		fatal2("no engine for %q", id)
+	}
+	b, err := os.ReadFile(planfile)
+	if err != nil {
+		fatal2("%v", err)
+	}
+	plan, err := e.Decode(b)
+	if err != nil {
+		fatal2("decode: %v", err)
+	}
+	c := newCtx(true)
+	v := safeExec(e, plan, c)
+	out, _ := json.Marshal(execResult{V: v, LogHash: logHash(c.Log)})
+	os.Stdout.Write(out)
+}
+
+// minimise greedily shrinks plan while the same violation class recurs; every
+// candidate is executed in a fresh process, in parallel batches (the first
+// accepted candidate in proposal order wins, so the result is deterministic).
+func minimise(e Engine, plan any, v *Violation, maxExecs int, deadline time.Time) (any, *Violation, int) {
 	execs := 0
+	par := runtime.NumCPU()
 	for {
+		cands := e.Shrink(plan)
 		improved := false
-		for _, cand := range e.Shrink(plan) {
-			if execs >= maxExecs {
+		for lo := 0; lo < len(cands) && !improved; lo += par {
+			if execs >= maxExecs || time.Now().After(deadline) {
 				return plan, v, execs
 			}
-			execs++
-			cv := safeExec(e, cand, newCtx(false))
-			if cv != nil && cv.Class == v.Class {
-				plan, v, improved = cand, cv, true
-				break
+			hi := min(lo+par, len(cands))
+			res := make([]execResult, hi-lo)
+			var wg sync.WaitGroup
+			for k := lo; k < hi; k++ {
+				wg.Add(1)
+				go func(k int) { defer wg.Done(); res[k-lo] = execFresh(e, cands[k]) }(k)
+			}
+			wg.Wait()
+			execs += hi - lo
+			for k := lo; k < hi; k++ {
+				if cv := res[k-lo].V; cv != nil && cv.Class == v.Class {
+					plan, v, improved = cands[k], cv, true
+					break
+				}
 			}
 		}
 		if !improved {
@@ -191,6 +256,17 @@ type ReplayFile struct {
 	LogHash  string          `json:"event_log_hash"`
 	RepoHead string          `json:"repo_head"`
 	RepoDiff string          `json:"repo_diff_hash"`
+	// ShardPrefix is set when the violation does not reproduce from the plan
+	// alone in a fresh process but only after the runs that preceded it in its
+	// worker process (process-global state in the library): the replay is then
+	// the deterministic re-execution of that worker's runs up to Run.
+	ShardPrefix *shardPrefix `json:"shard_prefix,omitempty"`
+}
+
+type shardPrefix struct {
+	Tier string `json:"tier"`
+	K    int    `json:"k"`
+	N    int    `json:"n"`
 }
 
 func repoState() (string, string) {
@@ -213,18 +289,21 @@ func verifDir() string {
 	return "/verif"
 }
 
-func writeReplay(e Engine, seed, run uint64, orig, plan any, v *Violation, shr int) string {
+func writeReplay(e Engine, seed, run uint64, orig, plan any, v *Violation, shr int, sp *shardPrefix) string {
 	c := newCtx(true)
-	v2 := safeExec(e, plan, c)
-	if v2 == nil || v2.Class != v.Class {
-		fatal2("minimised plan no longer violates (%v)", v2)
+	if sp == nil {
+		// event log for the file; the authoritative hash comes from the fresh-process replay
+		safeExec(e, plan, c)
 	}
 	head, diff := repoState()
-	rf := ReplayFile{Property: e.ID(), Seed: seed, Run: run, Class: v2.Class, Key: v2.Key, Detail: v2.Detail,
-		Plan: planJSON(plan), Original: planJSON(orig), Shrinks: shr, Log: c.Log, LogHash: logHash(c.Log), RepoHead: head, RepoDiff: diff}
-	dir := filepath.Join(verifDir(), "replays", e.ID())
+	rf := ReplayFile{Property: e.ID(), Seed: seed, Run: run, Class: v.Class, Key: v.Key, Detail: v.Detail,
+		Plan: planJSON(plan), Original: planJSON(orig), Shrinks: shr, Log: c.Log, LogHash: logHash(c.Log), RepoHead: head, RepoDiff: diff, ShardPrefix: sp}
+	if sp == nil {
+		rf.LogHash = execFresh(e, plan).LogHash
+	}
+	dir := filepath.Join(envOr("VERIF_REPLAY_DIR", filepath.Join(verifDir(), "replays")), e.ID())
 	os.MkdirAll(dir, 0o755)
-	path := filepath.Join(dir, fmt.Sprintf("%d-%d-%s.json", seed, run, sanitize(v2.Class)))
+	path := filepath.Join(dir, fmt.Sprintf("%d-%d-%s.json", seed, run, sanitize(v.Class)))
 	b, _ := json.MarshalIndent(rf, "", " ")
 	if err := os.WriteFile(path, b, 0o644); err != nil {
 		fatal2("write replay: %v", err)
@@ -260,6 +339,18 @@ func replay(path string, quiet bool) int {
 	plan, err := e.Decode(rf.Plan)
 	if err != nil {
 		fatal2("decode plan: %v", err)
+	}
+	if sp := rf.ShardPrefix; sp != nil {
+		res := runShard(e, sp.Tier, rf.Seed, sp.K, sp.N, int(rf.Run)+1, time.Now().Add(24*time.Hour))
+		if res.First != nil && res.First.Run == rf.Run && res.First.V.Class+"+process-history" == rf.Class {
+			if !quiet {
+				fmt.Printf("REPLAY property=%s class=%s (after the %d preceding runs of worker %d/%d)\n  %s\n", rf.Property, rf.Class, res.Runs-1, sp.K, sp.N, res.First.V.Detail)
+			}
+			fmt.Printf("VIOLATION property=%s replay=%s\n", rf.Property, path)
+			return 1
+		}
+		fmt.Printf("REPLAY-DIVERGED property=%s: worker prefix no longer ends in class=%s at run %d\n", rf.Property, rf.Class, rf.Run)
+		return 2
 	}
 	c := newCtx(true)
 	v := safeExec(e, plan, c)
@@ -335,7 +426,7 @@ type shardResult struct {
 	Hashes      []uint64         `json:"-"` // distinct non-trivial plan hashes
 	HashCapped  bool             `json:"hash_capped"`
 	Samples     []sample         `json:"samples"`
-	Violations  []foundViolation `json:"violations"`
+	First       *rawViolation    `json:"first_violation,omitempty"` // the worker stops at its first violation
 	KnownHits   map[string]int64 `json:"known_hits"`
 	StoppedWall bool             `json:"stopped_on_wall_cap"`
 }
@@ -343,6 +434,13 @@ type sample struct {
 	Run  uint64          `json:"run"`
 	Plan json.RawMessage `json:"plan"`
 	Log  []string        `json:"event_log"`
+}
+type rawViolation struct {
+	Run  uint64          `json:"run"`
+	Plan json.RawMessage `json:"plan"`
+	V    Violation       `json:"violation"`
+	K    int             `json:"k"`
+	N    int             `json:"n"`
 }
 type foundViolation struct {
 	Run    uint64 `json:"run"`
@@ -353,14 +451,12 @@ type foundViolation struct {
 }
 
 const hashCap = 3_000_000
-const maxViolationsPerShard = 3
 
 // runShard executes runs k, k+n, k+2n, ... < total.
 func runShard(e Engine, tier string, seed uint64, k, n, total int, deadline time.Time) *shardResult {
 	res := &shardResult{Stats: map[string]int64{}, KnownHits: map[string]int64{}}
 	seen := map[uint64]struct{}{}
 	known := loadKnown()
-	seenClass := map[string]bool{}
 	for i := k; i < total; i += n {
 		if i%64 == k%64 && time.Now().After(deadline) {
 			res.StoppedWall = true
@@ -394,19 +490,10 @@ func runShard(e Engine, tier string, seed uint64, k, n, total int, deadline time
 			res.KnownHits[kf.Text]++
 			continue
 		}
-		if seenClass[v.Class] || len(res.Violations) >= maxViolationsPerShard {
-			continue
-		}
-		seenClass[v.Class] = true
-		mp, mv, shr := minimise(e, plan, v, 4000)
-		if kf := matchKnown(known, e.ID(), mv); kf != nil {
-			// the minimised witness is a listed finding; the unminimised one was
-			// another route to it
-			res.KnownHits[kf.Text]++
-			continue
-		}
-		path := writeReplay(e, seed, run, plan, mp, mv, shr)
-		res.Violations = append(res.Violations, foundViolation{Run: run, Replay: path, Class: mv.Class, Key: mv.Key, Detail: mv.Detail})
+		// Stop at the first violation: from here on this process may carry
+		// corrupted global state, and everything else is done in fresh processes.
+		res.First = &rawViolation{Run: run, Plan: planJSON(plan), V: *v, K: k, N: n}
+		break
 	}
 	for h := range seen {
 		res.Hashes = append(res.Hashes, h)
@@ -452,6 +539,8 @@ func runCheck(e Engine, tier string, seed uint64, workers int, runsOverride int,
 	total, wall := e.Budget(tier)
 	if runsOverride > 0 {
 		total = runsOverride
+	} else if v, err := strconv.Atoi(os.Getenv("VERIF_RUNS")); err == nil && v > 0 {
+		total = v
 	}
 	deadline := start.Add(wall)
 	var parts []*shardResult
@@ -487,6 +576,7 @@ func runCheck(e Engine, tier string, seed uint64, workers int, runsOverride int,
 	}
 	// merge
 	m := &shardResult{Stats: map[string]int64{}, KnownHits: map[string]int64{}}
+	var raws []rawViolation
 	distinct := map[uint64]struct{}{}
 	for _, p := range parts {
 		m.Runs += p.Runs
@@ -506,7 +596,9 @@ func runCheck(e Engine, tier string, seed uint64, workers int, runsOverride int,
 		if len(m.Samples) < 3 {
 			m.Samples = append(m.Samples, p.Samples...)
 		}
-		m.Violations = append(m.Violations, p.Violations...)
+		if p.First != nil {
+			raws = append(raws, *p.First)
+		}
 	}
 	if len(m.Samples) > 3 {
 		m.Samples = m.Samples[:3]
@@ -518,18 +610,44 @@ func runCheck(e Engine, tier string, seed uint64, workers int, runsOverride int,
 			unreached = append(unreached, k)
 		}
 	}
-	// confirm violations by replay in a fresh process
+	// violations: confirm from a fresh process, minimise in fresh processes,
+	// write the replay file, replay it once more in a fresh process
 	status := 0
 	self, _ := os.Executable()
 	var confirmed []foundViolation
+	known := loadKnown()
+	sort.Slice(raws, func(i, j int) bool { return raws[i].Run < raws[j].Run })
 	seenV := map[string]bool{}
-	for _, v := range m.Violations {
-		if seenV[v.Class] { // one witness per violation class is reported
-			os.Remove(v.Replay)
+	minDeadline := time.Now().Add(3 * time.Minute)
+	for _, rv := range raws {
+		if seenV[rv.V.Class] { // one witness per violation class is reported
 			continue
 		}
-		seenV[v.Class] = true
-		out, err := exec.Command(self, "replay", "-quiet", v.Replay).CombinedOutput()
+		seenV[rv.V.Class] = true
+		plan, err := e.Decode(rv.Plan)
+		if err != nil {
+			fatal2("decode own plan: %v", err)
+		}
+		var path string
+		fr := execFresh(e, plan)
+		if fr.V == nil || fr.V.Class != rv.V.Class {
+			// depends on the runs that preceded it in its worker process
+			v := rv.V
+			v.Class += "+process-history"
+			v.Detail = "reproducible only after the preceding runs of its worker process (state leaks between independent middlewares/runs through process-global memory): " + v.Detail
+			path = writeReplay(e, seed, rv.Run, plan, plan, &v, 0, &shardPrefix{Tier: tier, K: rv.K, N: rv.N})
+			confirmed = append(confirmed, foundViolation{Run: rv.Run, Replay: path, Class: v.Class, Key: v.Key, Detail: v.Detail})
+			// the prefix replay is its own confirmation (it is the run that found it); checked below
+		} else {
+			mp, mv, shr := minimise(e, plan, fr.V, 3000, minDeadline)
+			if kf := matchKnown(known, e.ID(), mv); kf != nil {
+				m.KnownHits[kf.Text]++
+				continue
+			}
+			path = writeReplay(e, seed, rv.Run, plan, mp, mv, shr, nil)
+			confirmed = append(confirmed, foundViolation{Run: rv.Run, Replay: path, Class: mv.Class, Key: mv.Key, Detail: mv.Detail})
+		}
+		out, err := exec.Command(self, "replay", "-quiet", path).CombinedOutput()
 		code := 0
 		if ee, ok := err.(*exec.ExitError); ok {
 			code = ee.ExitCode()
@@ -537,9 +655,8 @@ func runCheck(e Engine, tier string, seed uint64, workers int, runsOverride int,
 			fatal2("replay exec: %v", err)
 		}
 		if code != 1 {
-			fatal2("violation did not reproduce in a fresh process (exit %d): %s\n%s", code, v.Replay, out)
+			fatal2("violation did not reproduce in a fresh process (exit %d): %s\n%s", code, path, out)
 		}
-		confirmed = append(confirmed, v)
 	}
 	sort.Slice(confirmed, func(i, j int) bool { return confirmed[i].Run < confirmed[j].Run })
 	wallS := time.Since(start).Seconds()
@@ -625,7 +742,7 @@ func writeEvidence(e Engine, tier string, seed uint64, m *shardResult, distinct 
 		ev["violation_list"] = vs
 	}
 	b, _ := json.MarshalIndent(ev, "", " ")
-	dir := filepath.Join(verifDir(), "evidence")
+	dir := envOr("VERIF_EVIDENCE_DIR", filepath.Join(verifDir(), "evidence"))
 	os.MkdirAll(dir, 0o755)
 	if err := os.WriteFile(filepath.Join(dir, e.ID()+".json"), b, 0o644); err != nil {
 		fatal2("%v", err)
